@@ -59,6 +59,7 @@ func genConfig(t *rapid.T) Config {
 	cfg.HoldPct = []int{0, 0, 10, 30}[Pick(t, "holdPct", 4)]
 	cfg.FaultBlocks = rapid.IntRange(20, 300).Draw(t, "faultBlocks")
 	cfg.Rerun = Chance(t, "rerun?", 50)
+	cfg.Upgrade = os.Getenv("VERIF_OLDART") != "" && (Chance(t, "upgrade?", 25) || os.Getenv("VERIF_D_UPGRADE") != "")
 	cfg.Liveness = 1000
 	cfg.Bootstrap = 500
 	return cfg
@@ -105,7 +106,7 @@ func TestDeploy(t *testing.T) {
 			r.Count("converged")
 		}
 		// fingerprint: configuration class + the order of lifecycle events
-		r.Tok(fmt.Sprintf("n%d", cfg.N), fmt.Sprintf("late%d crash%d rpc%d evt%d hold%d", len(cfg.Late), len(cfg.Crashes), cfg.RPCErrPct, cfg.EvtPct, cfg.HoldPct), fmt.Sprintf("conv=%v", res.Converged))
+		r.Tok(fmt.Sprintf("n%d", cfg.N), fmt.Sprintf("late%d crash%d rpc%d evt%d hold%d upg%v", len(cfg.Late), len(cfg.Crashes), cfg.RPCErrPct, cfg.EvtPct, cfg.HoldPct, cfg.Upgrade), fmt.Sprintf("conv=%v", res.Converged))
 		for _, l := range res.Log {
 			if strings.Contains(l, "CRASH") || strings.Contains(l, "START") || strings.Contains(l, "CONTRACT") || strings.Contains(l, "NOTARY ROLE") || strings.Contains(l, "RERUN") {
 				f := strings.Fields(l)
